@@ -507,6 +507,19 @@ class CHECK(Check):
         if any(abs(a - b_) > 1e-9 for a, b_ in zip(mix, o["pmf1"])) or any(abs(s - 1) > 1e-9 for s in o["pmf_rows_sum"]):
             probs.append(Problem("property", f"_pmf_predict {o['pmf1']} is not the weights_-mixture of predictors_ {mix}",
                                  "C08.pmf"))
+        # -- automatic nu (nu=None): _ACCURACY_MUL * std(|h_0(X) - y|) / sqrt(n), h_0 = the first best response --------------
+        if case["nu"] is None and o.get("trace"):
+            ev0 = o["trace"][0]
+            vals_ = sorted(set(case["x"]))
+            lab0 = list(ev0[1]) if ev0[0] == "h" else [int(ev0[1])] * len(vals_) if ev0[0] == "d" else None
+            if lab0 is not None and len(case["y"]) > 1:
+                dd = [abs(F(lab0[vals_.index(xv)]) - yv) for xv, yv in zip(case["x"], case["y"])]
+                mean_ = sum(dd, F(0)) / len(dd)
+                var_ = sum(((d - mean_) ** 2 for d in dd), F(0)) / (len(dd) - 1)          # pandas std: ddof = 1
+                want_sq = F(1, 4) * var_ / len(dd)
+                if abs(o["nu"] ** 2 - float(want_sq)) > 1e-12 * max(1.0, float(want_sq)):
+                    probs.append(Problem("correspondence", f"automatic nu = {o['nu']} but _ACCURACY_MUL * std(|h0(X) - y|) / sqrt(n) = "
+                                                           f"{math.sqrt(float(want_sq))} for the first best response {lab0}", "C08.nu-auto"))
         # -- the main loop: implementation vs documented algorithm on the recorded answers vs Lean state machine ------------
         rp = loop_replay(case, o) if "trace" in o else None
         if rp is None:
